@@ -223,6 +223,20 @@ def handle (args : List Sexp) : String :=
       | .ok c => "ok " ++ toString (codeToSexp c)
       | .error e => "ok " ++ errToString e
     | none => "err bad-prog"
+  | [.atom "printop", cls, names, defaults, vals] =>
+    -- C18 printop "Class" ("p1"…) ("d1"…) ("v1"…): printed form, and what python reads back from it
+    match cls.asStr?, names.asStrs?, defaults.asStrs?, vals.asStrs? with
+    | some cls, some names, some ds, some vs =>
+      let c : OpClass := ⟨cls, names.zip ds⟩
+      let o : OpInst := ⟨c, vs⟩
+      let showP : Printed → String
+        | .ref n => "(ref \"" ++ n ++ "\")"
+        | .ctor n as => "(ctor \"" ++ n ++ "\" " ++ toString (Sexp.list (as.map .str)) ++ ")"
+      let back := match parsePrinted c (printOp o) with
+        | some o' => toString (Sexp.list (o'.vals.map .str))
+        | none => "none"
+      "ok " ++ showP (printOp o) ++ " " ++ back
+    | _, _, _, _ => "err bad-args"
   | [.atom "trace", vars, allow, tr, root, kwids] =>
     match vars.asNats?, allow.asBool?, parseTrace tr, root.asNat?, parseKwIds kwids with
     | some vars, some allow, some tr, some root, some kwids =>
